@@ -3,5 +3,6 @@ CONSTANTS
   Trunk = 0
   NBlocks = 8
   NReq = 30
+  TipW = 1
 INVARIANT Dump
 CHECK_DEADLOCK FALSE
